@@ -29,12 +29,12 @@ ASSUMPTIONS = ['statements inside the standard library are not preemption points
                'every thread is a fresh thread or a worker serving requests one after another; the application object is the module default app (redirect needs it)']
 
 KINDS = ['echo', 'post', 'raise_resp', 'abort', 'crash', 'nf', 'na', 'big', 'redirect', 'gen', 'multipart', 'json', 'chunked', 'noname_json',
-         'chunked_form', 'echo10', 'redirect10', 'session', 'static', 'static_denied', 'logout', 'relogin']
+         'chunked_form', 'echo10', 'redirect10', 'session', 'static', 'static_denied', 'logout', 'relogin', 'bigfile']
 _APP = {}
 
 
 # kinds whose whole answer is text around the request's marker (no signatures or lengths derived from it)
-MARKER_ONLY_KINDS = ('logout', 'relogin', 'echo', 'echo10', 'redirect', 'redirect10', 'nf', 'na', 'abort', 'raise_resp', 'gen', 'crash', 'static', 'static_denied')
+MARKER_ONLY_KINDS = ('bigfile', 'logout', 'relogin', 'echo', 'echo10', 'redirect', 'redirect10', 'nf', 'na', 'abort', 'raise_resp', 'gen', 'crash', 'static', 'static_denied')
 OWN_TEXT = {'echo': lambda m: 'http://' + m + '.example/echo/', 'echo10': lambda m: 'http://' + m + '.example:8080/echo/', 'redirect': lambda m: 'http://' + m + '.example/to/',
             'redirect10': lambda m: 'http://' + m + '.example/to/'}
 _STATIC = {}
@@ -159,6 +159,12 @@ def get_app():
         rs.set_cookie('sess', sess, secret='k')
         return 'session=%r' % (sess,)
 
+    def bigfile():
+        # a file-like body of a few hundred KiB, streamed by the framework's own file wrapper (the server offers none)
+        import io
+        m = rq.query.get('m')
+        return io.BytesIO((m + '|').encode() * (200000 // (len(m) + 1)))
+
     def logout():
         rs.delete_cookie('sid', path='/')
         return 'bye ' + rq.query.get('m')
@@ -178,6 +184,7 @@ def get_app():
     app.route('/static/<name:path>', 'GET', lambda name: static_file(name, root=www))
     app.route('/session', 'GET', session)
     app.route('/logout', 'GET', logout)
+    app.route('/bigfile', 'GET', bigfile)
     app.route('/relogin', 'GET', relogin)
     app.route('/mp', 'POST', multipart)
     app.route('/json', 'POST', json_)
@@ -243,7 +250,7 @@ def make_env(kind, m):
         return make_environ('GET', '/echo/' + m, qs='m=' + m, headers={'X-M': m, 'Cookie': 'c=' + m, 'Host': m + '.example:8080'}, flavour='http10')
     if kind == 'redirect10':
         return make_environ('GET', '/redirect', qs='m=' + m, headers={'Host': m + '.example'}, flavour='http10')
-    if kind in ('logout', 'relogin'):
+    if kind in ('logout', 'relogin', 'bigfile'):
         return make_environ('GET', '/' + kind, qs='m=' + m)
     if kind in ('static', 'static_denied'):
         static_files_for(m)
@@ -293,7 +300,7 @@ class Lab:
             res, info = self.sched.run([job(self.app, [(kind, m)])], [])
             assert res[0][0] == 'ok', res
             status = res[0][1][0][0]
-            expect_ok = kind in ('echo', 'post', 'raise_resp', 'gen', 'multipart', 'json', 'chunked', 'redirect', 'chunked_form', 'echo10', 'redirect10', 'session', 'static', 'logout', 'relogin')
+            expect_ok = kind in ('echo', 'post', 'raise_resp', 'gen', 'multipart', 'json', 'chunked', 'redirect', 'chunked_form', 'echo10', 'redirect10', 'session', 'static', 'logout', 'relogin', 'bigfile')
             if expect_ok and not status.startswith(('2', '3')):
                 raise AssertionError(f'harness: kind {kind} is meant to succeed but answers {status} when served alone: {res[0][1][0][2][:200]!r}')
             # the reference itself must be clean: a request served alone cannot carry what earlier requests of this process brought
@@ -360,7 +367,7 @@ class Lab:
 
 PAIRS_QUICK = [('echo', 'echo'), ('echo', 'post'), ('raise_resp', 'echo'), ('crash', 'abort'), ('big', 'big'), ('nf', 'redirect'), ('gen', 'echo'), ('na', 'post'),
                ('multipart', 'json'), ('json', 'echo'), ('chunked', 'chunked'), ('chunked', 'post'), ('noname_json', 'noname_json'), ('multipart', 'multipart'),
-               ('chunked_form', 'chunked_form'), ('chunked_form', 'echo'), ('echo10', 'echo10'), ('redirect10', 'echo10'), ('session', 'session'), ('static', 'static_denied'), ('static', 'static'), ('logout', 'relogin'), ('relogin', 'relogin')]
+               ('chunked_form', 'chunked_form'), ('chunked_form', 'echo'), ('echo10', 'echo10'), ('redirect10', 'echo10'), ('session', 'session'), ('static', 'static_denied'), ('static', 'static'), ('logout', 'relogin'), ('relogin', 'relogin'), ('bigfile', 'bigfile'), ('gen', 'gen'), ('gen', 'bigfile')]
 
 
 def one_preemption(ctx, lab, a, b, stride=1):
